@@ -34,6 +34,7 @@ fn main() {
         "c19" => c19::run(rest),
         "lifecycle" => lifecycle::run(rest),
         "fixtures" => fixtures::run(rest),
+        "suite-traces" => fixtures::suite(rest),
         "delegcli" => delegcli::run(rest),
         "c10" => editor::run(rest),
         "c17" => editor::run_update(rest),
